@@ -53,12 +53,19 @@ type ops map[string]func() string
 type instance struct {
 	kind, config string
 	cost         int // 1 cheap .. 3 slow (GT exponentiations, pairings)
-	build        func(rep string) ops
+	// build constructs the shared object(s) of one repetition: [0] = object A; [1] (if offered) = a DIFFERENT
+	// object B going through the same code paths (and the same suite / scheme object) for the "distinct" workloads
+	build func(rep string) []ops
+}
+
+func one(f func(rep string) ops) func(rep string) []ops {
+	return func(rep string) []ops { return []ops{f(rep)} }
 }
 
 type Workload struct {
 	Kind string   `json:"kind"`
 	Rep  string   `json:"rep"`
+	Objs string   `json:"objs"` // "same" | "distinct"
 	Ops  []string `json:"ops"`
 }
 
@@ -110,14 +117,23 @@ func pointInstance(name string, seed int64) instance {
 	} else if g.Sort == "G2" || g.Family == "qr" {
 		cost = 2
 	}
-	a, b := somePoint(g, 5+seed%1000), somePoint(g, 11)
-	sum := g.NewPoint().Add(a, b)
-	enc, err := sum.MarshalBinary()
-	if err != nil {
-		panic(err)
+	type pv struct {
+		a, b, sum kyber.Point
+		enc       []byte
 	}
-	sc := g.Group.Scalar().SetInt64(3)
-	return instance{kind: "point", config: name, cost: cost, build: func(rep string) ops {
+	mkv := func(k1, k2 int64) pv {
+		a, b := somePoint(g, k1), somePoint(g, k2)
+		sum := g.NewPoint().Add(a, b)
+		enc, err := sum.MarshalBinary()
+		if err != nil {
+			panic(err)
+		}
+		return pv{a, b, sum, enc}
+	}
+	vals := []pv{mkv(5+seed%1000, 11), mkv(17+seed%1000, 23)}
+	sc := g.Group.Scalar().SetInt64(0x5a3c96)
+	mk := func(rep string, v pv) ops {
+		a, b, sum, enc := v.a, v.b, v.sum, v.enc
 		var q kyber.Point
 		if rep == "decoded" {
 			q = g.NewPoint()
@@ -149,22 +165,26 @@ func pointInstance(name string, seed int64) instance {
 			o["Data"] = func() string { d, err := q.Data(); return fmt.Sprintf("%x/%v", d, err != nil) }
 		}
 		return o
+	}
+	// private receivers are made with g.NewPoint() throughout, so the instance's flags (AllowVarTime) apply to them
+	return instance{kind: "point", config: name, cost: cost, build: func(rep string) []ops {
+		return []ops{mk(rep, vals[0]), mk(rep, vals[1])}
 	}}
 }
 
 func scalarInstance(name string) instance {
 	g := groups.ByName(name)
-	x, y := g.Group.Scalar().SetInt64(123456789), g.Group.Scalar().SetInt64(-7)
-	prod := g.Group.Scalar().Mul(x, y)
-	enc, err := prod.MarshalBinary()
-	if err != nil {
-		panic(err)
-	}
 	var base kyber.Point
 	if g.CanBase {
-		base = g.NewPoint().Base()
+		base = g.NewPoint().Mul(g.Group.Scalar().SetInt64(9), nil)
 	}
-	return instance{kind: "scalar", config: g.ScalarTy, cost: 1, build: func(rep string) ops {
+	mk := func(rep string, xv, yv int64) ops {
+		x, y := g.Group.Scalar().SetInt64(xv), g.Group.Scalar().SetInt64(yv)
+		prod := g.Group.Scalar().Mul(x, y)
+		enc, err := prod.MarshalBinary()
+		if err != nil {
+			panic(err)
+		}
 		var s kyber.Scalar
 		if rep == "decoded" {
 			s = g.Group.Scalar()
@@ -195,6 +215,9 @@ func scalarInstance(name string) instance {
 			o["MulPoint"] = func() string { return hx(g.NewPoint().Mul(s, base).MarshalBinary()) }
 		}
 		return o
+	}
+	return instance{kind: "scalar", config: g.ScalarTy, cost: 1, build: func(rep string) []ops {
+		return []ops{mk(rep, 123456789, -7), mk(rep, 987654321, -11)}
 	}}
 }
 
@@ -248,7 +271,7 @@ func newGroup(name string) kyber.Group {
 //	             draws from the stream it was handed
 //	rep "warm":  RandomStream() was called once by the constructing goroutine; that one stream object is shared
 func suiteInstance(config string, mk func() fullSuite, grp func(fullSuite) kyber.Group, canPick bool) instance {
-	return instance{kind: "suite", config: config, cost: 1, build: func(rep string) ops {
+	return instance{kind: "suite", config: config, cost: 1, build: one(func(rep string) ops {
 		s := mk()
 		getStream := func() cipher.Stream { return s.RandomStream() }
 		if rep == "warm" {
@@ -307,60 +330,73 @@ func suiteInstance(config string, mk func() fullSuite, grp func(fullSuite) kyber
 			}
 		}
 		return o
-	}}
+	})}
 }
 
 // ---------------------------------------------------------------- pairings
 
 func pairingInstance(key string, seed int64) instance {
-	var s pairing.Suite
+	var long pairing.Suite
 	for _, g := range groups.All() {
 		if g.SuiteKey == key {
-			s = g.Suite
+			long = g.Suite
 			break
 		}
 	}
-	k1, k2 := s.G1().Scalar().SetInt64(7+seed%100), s.G1().Scalar().SetInt64(9)
-	a1, b1 := s.G1().Point().Mul(k1, nil), s.G1().Point().Mul(k2, nil)
-	a2, b2 := s.G2().Point().Mul(k2, nil), s.G2().Point().Mul(k1, nil)
-	e1, _ := s.G1().Point().Add(a1, b1).MarshalBinary()
-	e2, _ := s.G2().Point().Add(a2, b2).MarshalBinary()
-	long := s
-	return instance{kind: "pairing", config: key, cost: 3, build: func(rep string) ops {
-		var p, q kyber.Point
+	type pq struct {
+		a1, b1, a2, b2 kyber.Point
+		e1, e2         []byte
+	}
+	mkv := func(x, y int64) pq {
+		k1, k2 := long.G1().Scalar().SetInt64(x), long.G1().Scalar().SetInt64(y)
+		v := pq{a1: long.G1().Point().Mul(k1, nil), b1: long.G1().Point().Mul(k2, nil),
+			a2: long.G2().Point().Mul(k2, nil), b2: long.G2().Point().Mul(k1, nil)}
+		v.e1, _ = long.G1().Point().Add(v.a1, v.b1).MarshalBinary()
+		v.e2, _ = long.G2().Point().Add(v.a2, v.b2).MarshalBinary()
+		return v
+	}
+	vals := []pq{mkv(7+seed%100, 9), mkv(13+seed%100, 21)}
+	return instance{kind: "pairing", config: key, cost: 3, build: func(rep string) []ops {
 		s := long
 		if rep == "fresh" {
 			// a NEW suite object; the operands are decoded through the long-lived one, so the first calls on the
 			// new suite (Pair, ValidatePairing, G1()/G2() factories) are made by the goroutines after the barrier
 			s = newPairingSuite(key)
 		}
-		if rep == "decoded" || rep == "fresh" {
-			p, q = long.G1().Point(), long.G2().Point()
-			if err := p.UnmarshalBinary(e1); err != nil {
-				panic(err)
-			}
-			if err := q.UnmarshalBinary(e2); err != nil {
-				panic(err)
-			}
-		} else {
-			p, q = s.G1().Point().Add(a1, b1), s.G2().Point().Add(a2, b2)
-		}
-		return ops{
-			"Pair":            func() string { return hx(s.Pair(p, q).MarshalBinary()) },
-			"ValidatePairing": func() string { return fmt.Sprint(s.ValidatePairing(p, q, p, q), s.ValidatePairing(p, q, a1, q)) },
-			"MarshalG1": func() string {
-				if rep == "fresh" { // factories of the new suite
-					return hx(s.G1().Point().Set(p).MarshalBinary())
+		// both operand pairs go through the SAME suite object
+		mk := func(v pq) ops {
+			var p, q kyber.Point
+			if rep == "decoded" || rep == "fresh" {
+				p, q = long.G1().Point(), long.G2().Point()
+				if err := p.UnmarshalBinary(v.e1); err != nil {
+					panic(err)
 				}
-				return hx(p.MarshalBinary())
-			},
-			"MarshalG2": func() string {
-				if rep == "fresh" {
-					return hx(s.G2().Point().Set(q).MarshalBinary())
+				if err := q.UnmarshalBinary(v.e2); err != nil {
+					panic(err)
 				}
-				return hx(q.MarshalBinary())
-			},
+			} else {
+				p, q = long.G1().Point().Add(v.a1, v.b1), long.G2().Point().Add(v.a2, v.b2)
+			}
+			return ops{
+				"Pair": func() string { return hx(s.Pair(p, q).MarshalBinary()) },
+				"ValidatePairing": func() string {
+					return fmt.Sprint(s.ValidatePairing(p, q, p, q), s.ValidatePairing(p, q, v.a1, q))
+				},
+				"MarshalG1": func() string {
+					if rep == "fresh" { // factories of the new suite
+						return hx(s.G1().Point().Set(p).MarshalBinary())
+					}
+					return hx(p.MarshalBinary())
+				},
+				"MarshalG2": func() string {
+					if rep == "fresh" {
+						return hx(s.G2().Point().Set(q).MarshalBinary())
+					}
+					return hx(q.MarshalBinary())
+				},
+			}
 		}
+		return []ops{mk(vals[0]), mk(vals[1])}
 	}}
 }
 
@@ -380,7 +416,7 @@ func bdnMaskInstance(key string, seed int64) instance {
 		_, p := bdn.NewKeyPair(s, rs)
 		pubs = append(pubs, p)
 	}
-	return instance{kind: "bdnmask", config: key, cost: 3, build: func(rep string) ops {
+	return instance{kind: "bdnmask", config: key, cost: 3, build: one(func(rep string) ops {
 		fs := newPairingSuite(key) // rep "fresh": the suite used by the operations is new as well
 		m, err := bdn.NewMask(s.G2(), pubs, nil)
 		if err != nil {
@@ -411,7 +447,7 @@ func bdnMaskInstance(key string, seed int64) instance {
 				return hx(p.MarshalBinary())
 			},
 		}
-	}}
+	})}
 }
 
 func cosiInstance(seed int64) instance {
@@ -466,7 +502,7 @@ func cosiInstance(seed int64) instance {
 	if err != nil {
 		panic(err)
 	}
-	return instance{kind: "cosimask", config: "ed25519", cost: 1, build: func(rep string) ops {
+	return instance{kind: "cosimask", config: "ed25519", cost: 1, build: one(func(rep string) ops {
 		suite := edwards25519.NewBlakeSHA256Ed25519() // rep "fresh": a new suite object per repetition
 		m, err := cosi.NewMask(suite, pubs, nil)
 		if err != nil {
@@ -482,7 +518,7 @@ func cosiInstance(seed int64) instance {
 			"KeyEnabled":   func() string { b, err := m.KeyEnabled(pubs[1]); return fmt.Sprint(b, err) },
 			"Verify":       func() string { return fmt.Sprint(cosi.Verify(suite, pubs, msg, sig, cosi.CompletePolicy{})) },
 		}
-	}}
+	})}
 }
 
 // ---------------------------------------------------------------- public polynomials
@@ -498,7 +534,7 @@ func pubPolyInstance(name string, seed int64) instance {
 	if g.Sort != "" {
 		cost = 2
 	}
-	return instance{kind: "pubpoly", config: name, cost: cost, build: func(rep string) ops {
+	return instance{kind: "pubpoly", config: name, cost: cost, build: one(func(rep string) ops {
 		cs := make([]kyber.Point, len(commits))
 		for i := range commits {
 			cs[i] = commits[i].Clone()
@@ -521,96 +557,137 @@ func pubPolyInstance(name string, seed int64) instance {
 				return hx(ss[3].V.MarshalBinary())
 			},
 		}
-	}}
+	})}
 }
 
 // ---------------------------------------------------------------- verifiers
 
 var vmsg, vwrong = []byte("message to verify"), []byte("another message")
+var vmsg2 = []byte("a second, longer message that is verified through the same scheme object")
 
-func verifier(config string, cost int, build func() (verify func(m []byte) error, key kyber.Point)) instance {
-	return instance{kind: "verifier", config: config, cost: cost, build: func(rep string) ops {
-		verify, key := build()
-		return ops{
-			"Verify":         func() string { return fmt.Sprint(verify(vmsg)) },
-			"VerifyWrongMsg": func() string { return fmt.Sprint(verify(vwrong) != nil) },
-			"MarshalKey":     func() string { return hx(key.MarshalBinary()) },
+// vcase is one (key, message, signature) triple; a verifier instance offers two of them through ONE suite / scheme
+// object ("distinct" workloads: different keys and messages concurrently through the same code path).
+type vcase struct {
+	verify func(m []byte) error
+	key    kyber.Point
+	msg    []byte
+}
+
+func verifier(config string, cost int, build func() []vcase) instance {
+	return instance{kind: "verifier", config: config, cost: cost, build: func(rep string) []ops {
+		var out []ops
+		for _, c := range build() {
+			c := c
+			out = append(out, ops{
+				"Verify":         func() string { return fmt.Sprint(c.verify(c.msg)) },
+				"VerifyWrongMsg": func() string { return fmt.Sprint(c.verify(vwrong) != nil) },
+				"MarshalKey":     func() string { return hx(c.key.MarshalBinary()) },
+			})
 		}
+		return out
 	}}
 }
 
+func decodeKey(g kyber.Group, enc []byte) kyber.Point {
+	key := g.Point()
+	if err := key.UnmarshalBinary(enc); err != nil {
+		panic(err)
+	}
+	return key
+}
+
 func plainVerifier(name string, seed int64) instance {
-	msg := vmsg
+	msgs := [][]byte{vmsg, vmsg2}
 	switch name {
 	case "schnorr/ed25519", "schnorr/p256":
 		var s schnorr.Suite = p256.NewBlakeSHA256P256()
 		if name == "schnorr/ed25519" {
 			s = edwards25519.NewBlakeSHA256Ed25519WithRand(stream(seed, "sch-ed"))
 		}
-		x := s.Scalar().Pick(stream(seed, name))
-		X := s.Point().Mul(x, nil)
-		sig, err := schnorr.Sign(s, x, msg)
-		if err != nil {
-			panic(err)
-		}
-		enc, _ := X.MarshalBinary()
-		return verifier(name, 1, func() (func([]byte) error, kyber.Point) {
-			key := s.Point()
-			if err := key.UnmarshalBinary(enc); err != nil {
+		var encs, sigs [][]byte
+		for i, m := range msgs {
+			x := s.Scalar().Pick(stream(seed, fmt.Sprint(name, i)))
+			sig, err := schnorr.Sign(s, x, m)
+			if err != nil {
 				panic(err)
 			}
+			enc, _ := s.Point().Mul(x, nil).MarshalBinary()
+			encs, sigs = append(encs, enc), append(sigs, sig)
+		}
+		return verifier(name, 1, func() []vcase {
 			// rep "fresh": a new suite and a new scheme object per repetition
 			var fs schnorr.Suite = p256.NewBlakeSHA256P256()
 			if name == "schnorr/ed25519" {
 				fs = edwards25519.NewBlakeSHA256Ed25519()
 			}
 			sch := schnorr.NewScheme(fs)
-			return func(m []byte) error { return sch.Verify(key, m, sig) }, key
+			var out []vcase
+			for i := range msgs {
+				key, sig := decodeKey(s, encs[i]), sigs[i]
+				out = append(out, vcase{func(m []byte) error { return sch.Verify(key, m, sig) }, key, msgs[i]})
+			}
+			return out
 		})
 	case "eddsa":
-		e := eddsa.NewEdDSA(stream(seed, "eddsa"))
-		sig, err := e.Sign(msg)
-		if err != nil {
-			panic(err)
-		}
-		enc, _ := e.Public.MarshalBinary()
 		g := edwards25519.NewBlakeSHA256Ed25519()
-		return verifier(name, 1, func() (func([]byte) error, kyber.Point) {
-			key := g.Point()
-			if err := key.UnmarshalBinary(enc); err != nil {
+		var encs, sigs [][]byte
+		for i, m := range msgs {
+			e := eddsa.NewEdDSA(stream(seed, fmt.Sprint("eddsa", i)))
+			sig, err := e.Sign(m)
+			if err != nil {
 				panic(err)
 			}
-			return func(m []byte) error { return eddsa.Verify(key, m, sig) }, key
+			enc, _ := e.Public.MarshalBinary()
+			encs, sigs = append(encs, enc), append(sigs, sig)
+		}
+		return verifier(name, 1, func() []vcase {
+			var out []vcase
+			for i := range msgs {
+				key, sig := decodeKey(g, encs[i]), sigs[i]
+				out = append(out, vcase{func(m []byte) error { return eddsa.Verify(key, m, sig) }, key, msgs[i]})
+			}
+			return out
 		})
 	case "dleq/ed25519":
 		// DLEQ proof verifier with shared points (the message selects the statement that is checked)
 		s := edwards25519.NewBlakeSHA256Ed25519WithRand(stream(seed, "dleq"))
 		G := s.Point().Base()
 		H := s.Point().Mul(s.Scalar().SetInt64(77), nil)
-		x := s.Scalar().Pick(stream(seed, "dleq-x"))
-		pr, xG, xH, err := dleq.NewDLEQProof(s, G, H, x)
-		if err != nil {
-			panic(err)
+		type pf struct {
+			pr *dleq.Proof
+			eG []byte
+			xH kyber.Point
 		}
-		eG, _ := xG.MarshalBinary()
-		return verifier(name, 1, func() (func([]byte) error, kyber.Point) {
-			k := s.Point()
-			if err := k.UnmarshalBinary(eG); err != nil {
+		var pfs []pf
+		for i := range msgs {
+			x := s.Scalar().Pick(stream(seed, fmt.Sprint("dleq-x", i)))
+			pr, xG, xH, err := dleq.NewDLEQProof(s, G, H, x)
+			if err != nil {
 				panic(err)
 			}
+			eG, _ := xG.MarshalBinary()
+			pfs = append(pfs, pf{pr, eG, xH})
+		}
+		return verifier(name, 1, func() []vcase {
 			fs := edwards25519.NewBlakeSHA256Ed25519() // rep "fresh": a new suite object per repetition
-			return func(m []byte) error {
-				if bytes.Equal(m, msg) {
-					return pr.Verify(fs, G, H, k, xH)
-				}
-				return pr.Verify(fs, G, H, k, G)
-			}, k
+			var out []vcase
+			for i := range msgs {
+				p, k, good := pfs[i], decodeKey(s, pfs[i].eG), msgs[i]
+				out = append(out, vcase{func(m []byte) error {
+					if bytes.Equal(m, good) {
+						return p.pr.Verify(fs, G, H, k, p.xH)
+					}
+					return p.pr.Verify(fs, G, H, k, G)
+				}, k, good})
+			}
+			return out
 		})
 	}
 	panic("unknown verifier " + name)
 }
 
-// bls / bdn on a pairing suite (signatures in G1, keys in G2); the scheme object is shared too
+// bls / bdn on a pairing suite (signatures in G1, keys in G2): two keys, messages and signatures through ONE
+// scheme object on a new suite
 func blsVerifier(sk string, seed int64, useBdn bool) instance {
 	var s pairing.Suite
 	for _, g := range groups.All() {
@@ -619,34 +696,41 @@ func blsVerifier(sk string, seed int64, useBdn bool) instance {
 			break
 		}
 	}
+	msgs := [][]byte{vmsg, vmsg2}
 	scheme := bls.NewSchemeOnG1(s)
-	x, X := scheme.NewKeyPair(stream(seed, "bls"+sk))
-	enc, _ := X.MarshalBinary()
-	if useBdn {
-		bsig, err := bdn.Sign(s, x, vmsg)
+	var encs, sigs [][]byte
+	for i, m := range msgs {
+		x, X := scheme.NewKeyPair(stream(seed, fmt.Sprint("bls", sk, i)))
+		var sig []byte
+		var err error
+		if useBdn {
+			sig, err = bdn.Sign(s, x, m)
+		} else {
+			sig, err = scheme.Sign(x, m)
+		}
 		if err != nil {
 			panic(err)
 		}
-		return verifier("bdn/"+sk, 3, func() (func([]byte) error, kyber.Point) {
-			key := s.G2().Point()
-			if err := key.UnmarshalBinary(enc); err != nil {
-				panic(err)
+		enc, _ := X.MarshalBinary()
+		encs, sigs = append(encs, enc), append(sigs, sig)
+	}
+	name := "bls/" + sk
+	if useBdn {
+		name = "bdn/" + sk
+	}
+	return verifier(name, 3, func() []vcase {
+		fs := newPairingSuite(sk) // rep "fresh": new suite, new scheme object
+		sch := bls.NewSchemeOnG1(fs)
+		var out []vcase
+		for i := range msgs {
+			key, sig := decodeKey(s.G2(), encs[i]), sigs[i]
+			v := func(m []byte) error { return sch.Verify(key, m, sig) }
+			if useBdn {
+				v = func(m []byte) error { return bdn.Verify(fs, key, m, sig) }
 			}
-			fs := newPairingSuite(sk) // rep "fresh"
-			return func(m []byte) error { return bdn.Verify(fs, key, m, bsig) }, key
-		})
-	}
-	sig, err := scheme.Sign(x, vmsg)
-	if err != nil {
-		panic(err)
-	}
-	return verifier("bls/"+sk, 3, func() (func([]byte) error, kyber.Point) {
-		sch := bls.NewSchemeOnG1(newPairingSuite(sk)) // rep "fresh": new suite, new scheme object
-		key := s.G2().Point()
-		if err := key.UnmarshalBinary(enc); err != nil {
-			panic(err)
+			out = append(out, vcase{v, key, msgs[i]})
 		}
-		return func(m []byte) error { return sch.Verify(key, m, sig) }, key
+		return out
 	})
 }
 
@@ -834,6 +918,9 @@ func loadWorkloads(path string) ([]Workload, error) {
 		if a.Rep != b.Rep {
 			return a.Rep < b.Rep
 		}
+		if a.Objs != b.Objs {
+			return a.Objs > b.Objs // "same" first
+		}
 		return strings.Join(a.Ops, "|") < strings.Join(b.Ops, "|")
 	})
 	return wls, err
@@ -901,9 +988,17 @@ func runShard(cfg Config, wls []Workload) (*outcome, error) {
 			}
 			// sequential values, each operation on its own fresh object
 			probe := inst.build(wl.Rep)
+			nobj := 1
+			if wl.Objs == "distinct" {
+				nobj = 2
+			}
+			if len(probe) < nobj {
+				out.Skipped["configuration offers no second object"]++
+				continue
+			}
 			missing := false
 			for _, op := range wl.Ops {
-				if probe[op] == nil {
+				if probe[0][op] == nil {
 					missing = true
 				}
 			}
@@ -911,18 +1006,24 @@ func runShard(cfg Config, wls []Workload) (*outcome, error) {
 				out.Skipped["operation not offered by this configuration"]++
 				continue
 			}
+			// goroutine gi runs operation gi mod n on object (gi div n) mod nobj: with "distinct" every
+			// (operation, object) pair is in flight, the objects being shared as well
+			slot := func(gi int) (string, int) { return wl.Ops[gi%len(wl.Ops)], (gi / len(wl.Ops)) % nobj }
 			want := map[string]string{}
 			det := map[string]bool{}
 			for _, op := range wl.Ops {
-				sv, ok := seq[wl.Rep+"/"+op]
-				if !ok {
-					a, b := inst.build(wl.Rep)[op](), inst.build(wl.Rep)[op]()
-					sv = seqv{a, a == b} // random draws are not compared
-					seq[wl.Rep+"/"+op] = sv
+				for v := 0; v < nobj; v++ {
+					k := fmt.Sprint(wl.Rep, "/", v, "/", op)
+					sv, ok := seq[k]
+					if !ok {
+						a, b := inst.build(wl.Rep)[v][op](), inst.build(wl.Rep)[v][op]()
+						sv = seqv{a, a == b} // random draws are not compared
+						seq[k] = sv
+					}
+					want[fmt.Sprint(v, "/", op)], det[fmt.Sprint(v, "/", op)] = sv.val, sv.det
 				}
-				want[op], det[op] = sv.val, sv.det
 			}
-			id := fmt.Sprintf("%s/%s/%s/%s", inst.kind, inst.config, wl.Rep, strings.Join(wl.Ops, "|"))
+			id := fmt.Sprintf("%s/%s/%s/%s/%s", inst.kind, inst.config, wl.Rep, wl.Objs, strings.Join(wl.Ops, "|"))
 			out.Evaluations++
 			out.IDs = append(out.IDs, id)
 			if len(out.Samples) < 2 && out.Evaluations%37 == 1 {
@@ -942,7 +1043,8 @@ func runShard(cfg Config, wls []Workload) (*outcome, error) {
 				var pmu sync.Mutex
 				for gi := 0; gi < gor; gi++ {
 					wg.Add(1)
-					f := obj[wl.Ops[gi%len(wl.Ops)]]
+					op, v := slot(gi)
+					f := obj[v][op]
 					go func(gi int) {
 						defer wg.Done()
 						<-start
@@ -958,9 +1060,10 @@ func runShard(cfg Config, wls []Workload) (*outcome, error) {
 				wg.Wait()
 				out.Runs += gor
 				for gi, got := range res {
-					op := wl.Ops[gi%len(wl.Ops)]
-					if det[op] && got != want[op] {
-						mism[op] = [2]string{got, want[op]}
+					op, v := slot(gi)
+					k := fmt.Sprint(v, "/", op)
+					if det[k] && got != want[k] {
+						mism[op] = [2]string{got, want[k]}
 					}
 				}
 			}
